@@ -353,6 +353,39 @@ nested `ite` / `find_or_add` propagates to that outermost decorator, sifting run
 retried with the names mapped to the new levels.  Both theorems are instances of
 `C09_decorator_transparent`. -/
 
+/-- C09: `_image` (the recursion behind `image` and `preimage`) inside a context (or with requests
+disabled): it returns a reference or is aborted by a request having only added nodes — whatever
+the level maps do to the order (`ImgOKs`: no monotonicity asked); the reference denotes
+`rename_U (Q qvars. u ∧ rename_V v)` under any condition `C` that makes `vmap` increasing on the
+support of `v` (`C = True` for `image`) -/
+theorem C09_imageF_abort_aware (umap vmap : Option (List (Int × Int))) (ubad vbad : List Int)
+    (Q : List Nat) (fa : Bool) (rU rV : Nat → Nat) (S : Nat → Prop) (C : Prop)
+    (f : Nat) (m : Mgr) (u v : Int) (cache : Std.HashMap (Int × Int) Int)
+    (hP : ImgOKs umap vmap ubad vbad Q rU rV S m.nvars) (hmono : C → MonoOn rV S)
+    (hI : Inv m) (hq : Quiet m) (hu : m.tbl.Mem u) (hv : m.tbl.Mem v)
+    (hS : ∀ j, InSupp m.tbl v j → S j) (hmemo : IMemoC C fa Q rU rV m.tbl cache)
+    (hf : 2 * m.nvars + 1 ≤ f + m.tbl.levelOf u + m.tbl.levelOf v) :
+    Outcome2 m (fun r c m' => IMemoC C fa Q rU rV m'.tbl c ∧ IPostC C fa Q rU rV m'.tbl u v r)
+      (imageF umap vmap ubad vbad Q fa f u v cache m) :=
+  imageF_out umap vmap ubad vbad Q fa rU rV S m.nvars C hP hmono f m u v cache hI hq rfl hu hv hS
+    hmemo hf
+
+/-- non-vacuity (`C09_imageF_abort_aware`): `image`'s use on `exDyn` inside a context -/
+example : ImgOKs (some [(1, 0)]) none [] [] [0] (renOf [(1, 0)]) id (fun j => j < 2)
+      ({ exDyn with ctx := true } : Mgr).nvars ∧ Quiet { exDyn with ctx := true } ∧
+    (True → MonoOn id (fun j => j < 2)) := by
+  have hn : ({ exDyn with ctx := true } : Mgr).nvars = 2 := by decide
+  refine ⟨⟨?_, fun j hj => ⟨rfl, by rw [hn]; exact hj⟩, rfl, fun _ _ _ => rfl, fun _ _ => rfl⟩,
+    Or.inl rfl, fun _ _ _ _ _ h => h⟩
+  intro z hz hq
+  rw [hn] at hz ⊢
+  have : z = 1 := by
+    match z, hz with
+    | 0, _ => simp at hq
+    | 1, _ => rfl
+  subst this
+  decide
+
 /-- C09 `image(trans, source, rename, qvars, bdd, forall)`, renaming and quantified variables given
 by declared NAMES, operands held by the user, under the code's own preconditions stated by name
 (`ImagePre`: pairwise distinct keys, no key is a value, every target quantified or outside the
